@@ -51,4 +51,4 @@ impl AtomicDuration {
 
 #[cfg(kani)]
 #[path = "/verif/harness/may/sync_atomic_dur.rs"]
-mod verif_kani;
+pub(crate) mod verif_kani;
